@@ -383,11 +383,34 @@ def check_function_type_parens(idx: Index, rep: Report) -> None:
 def check_bool_spelling(idx: Index, rep: Report) -> None:
     r = rep.rule("C06.R4", "`true`/`false` is printed only for i1 and every integer reader reached for i1 accepts booleans", floor=3)
     pi = idx.func(PRINTER, "Printer.print_int")
-    ifs = [n for n in pi.node.body if isinstance(n, ast.If)]
-    if len(ifs) == 1 and unparse(ifs[0].test) in ("type == i1", "type is i1") and "'true'" in unparse(ifs[0]) and "f'{value:d}'" in unparse(ifs[0].orelse[0]):
+    from ..paths import enum_paths
+
+    bad_pi = []
+    seen_pi = set()
+    for pth in enum_paths(pi.node):
+        if not pth.feasible():
+            continue
+        nf = pth.nfacts()
+        is_i1 = next((p_ for t_, p_ in nf if t_ in ("type == i1", "type is i1", "i1 == type")), None)
+        truthy = next((p_ for t_, p_ in nf if t_ == "value"), None)
+        for k, e_ in enumerate(pth.effects):
+            if not (isinstance(e_, ast.Expr) and isinstance(e_.value, ast.Call) and unparse(e_.value.func) == "self.print_string" and e_.value.args):
+                continue
+            T = pth.res(e_.value.args[0], k)
+            if is_i1 is True:
+                ok_ = T in ("'true' if value else 'false'", "'false' if not value else 'true'") or (T == "'true'" and truthy is True) or (T == "'false'" and truthy is False)
+                seen_pi.add("bool")
+            elif is_i1 is False:
+                ok_ = T in ("f'{value:d}'", "str(value)", "f'{value}'", "f'{value!s}'", "repr(value)")
+                seen_pi.add("int")
+            else:
+                ok_ = False
+            if not ok_:
+                bad_pi.append(f"`{T}` is printed under type == i1: {is_i1}, value truthy: {truthy}")
+    if not bad_pi and seen_pi == {"bool", "int"}:
         r.ok(pi.fq, f"{pi.loc} true/false iff type == i1, else decimal")
     else:
-        r.fail(pi.fq, Finding("C06.R4", pi.fq, "bool-spelling", "print_int must print true/false exactly for i1 and `{value:d}` otherwise", pi.loc))
+        r.fail(pi.fq, Finding("C06.R4", pi.fq, "bool-spelling", "print_int must print true/false exactly for i1 and `{value:d}` otherwise: " + (bad_pi[0] if bad_pi else f"forms seen {sorted(seen_pi)}"), pi.loc))
     g = idx.func(AP, "AttrParser._parse_builtin_densearray_attr")
     calls = [c for c in calls_in(g.node, local=False) if call_attr(c) == "_parse_typed_integer"]
     if calls and all({k.arg: unparse(k.value) for k in c.keywords}.get("allow_boolean", "True") == "True" for c in calls):
